@@ -308,7 +308,7 @@ func (g *gen) weighted(ws []int) int {
 }
 
 var patLits = []rune{'a', 'b', 'c', 'A', '1', 'é', '-', ' ', 'É', '€', '_'}
-var patLitW = []int{30, 25, 5, 5, 5, 8, 3, 1, 1, 1, 1}
+var patLitW = []int{30, 25, 5, 5, 5, 14, 3, 1, 2, 3, 1}
 
 func (g *gen) litRune() rune { return patLits[g.weighted(patLitW)] }
 
@@ -556,7 +556,7 @@ func (g *gen) sample(r *node, out []rune) []rune {
 }
 
 var subjRunes = []rune{'a', 'b', 'A', '1', '-', 'é', '\n', 'c', ' ', '\r', '\v', ' ', '€', 'B', 'É'}
-var subjW = []int{30, 25, 6, 6, 8, 10, 6, 3, 2, 1, 1, 1, 2, 1, 1}
+var subjW = []int{30, 25, 6, 6, 8, 17, 6, 3, 2, 1, 1, 1, 5, 1, 2}
 
 func (g *gen) subjRune() rune { return subjRunes[g.weighted(subjW)] }
 
@@ -628,12 +628,13 @@ func (g *gen) ops(r *node, global bool, s []rune) []opv {
 		S := jsStr(subj)
 		C := cUnits(subj)
 		//           exec test setLI match search split replS replF props new ident select replStr
-		ws := []int{30, 18, 14, 8, 6, 9, 8, 8, 3, 12, 2, 9, 5}
+		//           exec test setLI match search split replS replF props new ident select replStr strArg
+		ws := []int{30, 18, 16, 8, 6, 12, 11, 10, 3, 12, 2, 9, 5, 9}
 		if global {
-			ws[2] = 22
+			ws[2], ws[7] = 24, 14
 		}
 		if ng >= 8 { // many groups: the $1..$9 statics, $nn, captures spliced into split results
-			ws = []int{10, 30, 6, 6, 2, 16, 22, 10, 1, 4, 1, 4, 2}
+			ws = []int{10, 30, 6, 6, 2, 16, 22, 10, 1, 4, 1, 4, 2, 2}
 		}
 		switch g.weighted(ws) {
 		case 0:
@@ -641,10 +642,8 @@ func (g *gen) ops(r *node, global bool, s []rune) []opv {
 		case 1:
 			ops = append(ops, opv{fmt.Sprintf("out.push(r.test(%s)); li(); leg.push(RegExp.$1,RegExp.$2,RegExp.$3,RegExp.$4,RegExp.$5,RegExp.$6,RegExp.$7,RegExp.$8,RegExp.$9,RegExp.$_,RegExp.input);", S), "(OTest " + C + ")"})
 		case 2:
-			// boundaries of the subject in units and in bytes, -1, one past the end
-			L := len(s)
-			v := Pick(g.r, []int{0, 1, 1, 2, 2, 3, L - 1, L, L, L + 1, utf8len(s), utf8len(s) + 1, -1, g.r.Intn(L + 2)})
-			ops = append(ops, opv{fmt.Sprintf("r.lastIndex=%d; li();", v), "(OSetLI " + Cz(int64(v)) + ")"})
+			js, cq := g.liValue(s)
+			ops = append(ops, opv{"r.lastIndex=" + js + "; li();", "(OSetLI " + cq + ")"})
 		case 3:
 			js := fmt.Sprintf("var m=%s.match(r); pa(m); if(m&&!r.global){out.push(m.index,m.input);}", S)
 			ops = append(ops, opv{js + " li();", "(OMatch " + C + ")"})
@@ -652,8 +651,8 @@ func (g *gen) ops(r *node, global bool, s []rune) []opv {
 			ops = append(ops, opv{fmt.Sprintf("out.push(%s.search(r)); li();", S), "(OSearch " + C + ")"})
 		case 5:
 			lim, clim := "", "None"
-			if g.r.Intn(2) == 0 {
-				v := Pick(g.r, []int64{0, 1, 1, 2, 2, 3, 4, 5, -1, 4294967297})
+			if g.r.Intn(2) == 0 || (ng >= 1 && g.r.Intn(2) == 0) { // a limit that falls among the spliced captures
+				v := Pick(g.r, []int64{0, 1, 1, 2, 2, 2, 3, 3, 4, 5, -1, 4294967297})
 				lim = fmt.Sprintf(", %d", v)
 				clim = fmt.Sprintf("(Some %d)", uint32(v))
 			}
@@ -661,7 +660,7 @@ func (g *gen) ops(r *node, global bool, s []rune) []opv {
 		case 6:
 			var rp []rune
 			for i := g.r.Intn(4) + 1; i > 0; i-- {
-				pieces := []string{"$&", "$`", "$'", "$$", "x", "-", "$", "$a", "$0", "$00", "é", "$$1"}
+				pieces := []string{"$&", "$`", "$`", "$`", "$'", "$'", "$$", "x", "-", "$", "$a", "$0", "$00", "é", "$$1"}
 				for c := 1; c <= ng && c <= 9; c++ {
 					pieces = append(pieces, fmt.Sprintf("$%d", c), fmt.Sprintf("$%d", c), fmt.Sprintf("$0%d", c))
 				}
@@ -712,6 +711,68 @@ func (g *gen) ops(r *node, global bool, s []rune) []opv {
 		case 11:
 			j := g.r.Intn(4)
 			ops = append(ops, opv{fmt.Sprintf("r=R[%d %% R.length]; li();", j), fmt.Sprintf("(OSelect %d%%nat)", j)})
+		case 13:
+			// pattern arguments that are not RegExp objects
+			src := Pick(g.r, []string{"r.source", "r.source", "{toString:function(){return r.source}}", "[r.source]", "new String(r.source)"})
+			switch g.r.Intn(6) {
+			case 0:
+				ops = append(ops, opv{fmt.Sprintf("var m=%s.match(%s); pa(m); if(m){out.push(m.index,m.input);} li();", S, src), "(OMatchArg " + C + ")"})
+			case 1:
+				ops = append(ops, opv{fmt.Sprintf("out.push(%s.search(%s)); li();", S, src), "(OSearchArg " + C + ")"})
+			case 2, 3:
+				// numbers, null, undefined, arrays: ToString is a text of ordinary characters
+				a := Pick(g.r, [][2]string{{"1", "1"}, {"11", "11"}, {"null", "null"}, {"undefined", ""}, {"", ""}, {"[1,1]", "1,1"}, {"['a','b']", "a,b"}, {"true", "true"}, {"[]", ""}, {"[['a']]", "a"}})
+				subj2 := subj
+				if g.r.Intn(2) == 0 { // make the text occur
+					t := a[1]
+					if a[0] == "undefined" || a[0] == "" {
+						t = "undefined"
+					}
+					k := g.r.Intn(len(subj) + 1)
+					subj2 = append(append(append([]rune{}, subj[:k]...), []rune(t)...), subj[k:]...)
+				}
+				S2, C2 := jsStr(subj2), cUnits(subj2)
+				if g.r.Intn(2) == 0 {
+					ops = append(ops, opv{fmt.Sprintf("var m=%s.match(%s); pa(m); if(m){out.push(m.index,m.input);} li();", S2, a[0]), fmt.Sprintf("(OMatchLit %s %s)", C2, Cstr(a[1]))})
+				} else {
+					ops = append(ops, opv{fmt.Sprintf("out.push(%s.search(%s)); li();", S2, a[0]), fmt.Sprintf("(OSearchLit %s %s)", C2, Cstr(a[1]))})
+				}
+			default:
+				// split by a string (or something converted to one), with and without limit
+				var sep []rune
+				arg, csep := "", ""
+				switch g.r.Intn(7) {
+				case 0:
+					arg, csep = "undefined", "None"
+				case 1:
+					sep = nil
+				case 2:
+					sep = []rune(Pick(g.r, []string{".", "a*", "$", "(a)", "|", "\\", "[a]"}))
+				case 3:
+					arg, csep = "1", "(Some "+Cstr("1")+")"
+				case 4:
+					arg, csep = "null", "(Some "+Cstr("null")+")"
+				default:
+					if len(subj) > 0 {
+						a := g.r.Intn(len(subj))
+						sep = subj[a : a+1+g.r.Intn(Min(2, len(subj)-a))]
+					}
+				}
+				if csep == "" {
+					csep = "(Some " + cUnits(sep) + ")"
+					arg = jsStr(sep)
+					if g.r.Intn(4) == 0 {
+						arg = "{toString:function(){return " + jsStr(sep) + "}}"
+					}
+				}
+				lim, clim := "", "None"
+				if g.r.Intn(2) == 0 {
+					v := Pick(g.r, []int64{0, 1, 1, 2, 2, 3, 4, -1, 4294967297})
+					lim = fmt.Sprintf(", %d", v)
+					clim = fmt.Sprintf("(Some %d)", uint32(v))
+				}
+				ops = append(ops, opv{fmt.Sprintf("pa(%s.split(%s%s)); li();", S, arg, lim), fmt.Sprintf("(OSplitStr %s %s %s)", C, csep, clim)})
+			}
 		case 12:
 			// a string as searchValue: a piece of the subject, something with pattern characters, or ""
 			var pat []rune
@@ -724,13 +785,26 @@ func (g *gen) ops(r *node, global bool, s []rune) []opv {
 					pat = subj[a : a+1+g.r.Intn(Min(2, len(subj)-a))]
 				}
 			}
+			P := jsStr(pat)
+			switch g.r.Intn(8) {
+			case 0:
+				pat, P = []rune("1"), "1"
+			case 1:
+				pat, P = []rune("null"), "null"
+			case 2:
+				pat, P = []rune("undefined"), "undefined"
+			case 3:
+				P = "{toString:function(){return " + jsStr(pat) + "}}"
+			case 4:
+				P = "[" + jsStr(pat) + "]"
+			}
 			if g.r.Intn(2) == 0 {
 				ret := g.dollarText(0)
-				ops = append(ops, opv{fmt.Sprintf("var lg=[]; out.push(%s.replace(%s,function(){lg.push(arguments.length); for(var i=0;i<arguments.length;i++) lg.push(arguments[i]); return %s+'<'+arguments.length+'>';})); for(var i=0;i<lg.length;i++) out.push(lg[i]); li();", S, jsStr(pat), jsStr(ret)),
+				ops = append(ops, opv{fmt.Sprintf("var lg=[]; out.push(%s.replace(%s,function(){lg.push(arguments.length); for(var i=0;i<arguments.length;i++) lg.push(arguments[i]); return %s+'<'+arguments.length+'>';})); for(var i=0;i<lg.length;i++) out.push(lg[i]); li();", S, P, jsStr(ret)),
 					fmt.Sprintf("(OReplStr %s %s (RFun %s))", C, cUnits(pat), cUnits(ret))})
 			} else {
 				rp := g.dollarText(0)
-				ops = append(ops, opv{fmt.Sprintf("out.push(%s.replace(%s,%s)); li();", S, jsStr(pat), jsStr(rp)),
+				ops = append(ops, opv{fmt.Sprintf("out.push(%s.replace(%s,%s)); li();", S, P, jsStr(rp)),
 					fmt.Sprintf("(OReplStr %s %s (RText %s))", C, cUnits(pat), cUnits(rp))})
 			}
 		default:
@@ -744,6 +818,53 @@ func (g *gen) ops(r *node, global bool, s []rune) []opv {
 		}
 	}
 	return ops
+}
+
+// a value for lastIndex of every class: boundaries of the subject in units and bytes,
+// negative, -0, fractions, NaN, +-Infinity, 2^31, 2^32-1, 2^32, 2^32+k inside the
+// subject, 2^53, numeric and other strings, objects whose valueOf reports its call
+func (g *gen) liValue(s []rune) (string, string) {
+	L := len(s)
+	in := func(v int64) (string, string) { return fmt.Sprint(v), "(LInt " + Cz(v) + ")" }
+	small := int64(Pick(g.r, []int{0, 1, 1, 2, 2, 3, L - 1, L, L, L + 1, utf8len(s), utf8len(s) + 1, g.r.Intn(L + 2)}))
+	switch g.weighted([]int{46, 6, 13, 10, 4, 6, 3, 6, 3, 7}) {
+	case 0:
+		return in(small)
+	case 1:
+		return in(-int64(g.r.Intn(3)) - 1)
+	case 2:
+		return in(Pick(g.r, []int64{2147483648, 4294967295, 4294967296, 4294967296 + small, 4294967296 + int64(g.r.Intn(L+1)), 4294967297, 8589934592 + small, 9007199254740992, -4294967296, -4294967295 + small}))
+	case 3:
+		n := 2*small + 1
+		if g.r.Intn(4) == 0 {
+			n = -1 - 2*int64(g.r.Intn(2))
+		}
+		return JSNum(float64(n) / 2), "(LHalf " + Cz(n) + ")"
+	case 4:
+		return "NaN", "LNaN"
+	case 5:
+		return "Infinity", "LPosInf"
+	case 6:
+		if g.r.Intn(2) == 0 {
+			return "(-Infinity)", "LNegInf"
+		}
+		return "(-0)", "(LInt 0)"
+	case 7:
+		v := small
+		if g.r.Intn(4) == 0 {
+			v = Pick(g.r, []int64{4294967296, 4294967297, -1})
+		}
+		return fmt.Sprintf("%q", fmt.Sprint(v)), "(LStrInt " + Cz(v) + ")"
+	case 8:
+		t := Pick(g.r, []string{"abc", "x1", "1x", "Infinit"})
+		return fmt.Sprintf("%q", t), "(LStrNaN " + Cstr(t) + ")"
+	default:
+		v := small
+		if g.r.Intn(5) == 0 {
+			v = 4294967296 + small
+		}
+		return fmt.Sprintf("{valueOf:function(){out.push('VO'); return %d;}}", v), "(LObj " + Cz(v) + ")"
+	}
 }
 
 func Min(a, b int) int {
@@ -778,7 +899,7 @@ func ovOf(v otto.Value) string {
 		return "(OB " + Cbool(b) + ")"
 	case v.IsNumber():
 		f, _ := v.ToFloat()
-		if f == math.Trunc(f) && math.Abs(f) < 1e15 {
+		if f == math.Trunc(f) && math.Abs(f) < 9.2e18 {
 			return "(OZ " + Cz(int64(f)) + ")"
 		}
 		return "(OS " + Cstr(fmt.Sprintf("NUM:%v", f)) + ")"
@@ -913,7 +1034,7 @@ func opExec(s string) opv {
 	return opv{fmt.Sprintf("var m=r.exec(%s); pa(m); if(m){out.push(m.index,m.input);} li();", jsStr([]rune(s))), "(OExec " + Cstr(s) + ")"}
 }
 func opSetLI(v int) opv {
-	return opv{fmt.Sprintf("r.lastIndex=%d; li();", v), "(OSetLI " + Cz(int64(v)) + ")"}
+	return opv{fmt.Sprintf("r.lastIndex=%d; li();", v), "(OSetLI (LInt " + Cz(int64(v)) + "))"}
 }
 func opTest(s string) opv {
 	return opv{fmt.Sprintf("out.push(r.test(%s)); li(); leg.push(RegExp.$1,RegExp.$2,RegExp.$3,RegExp.$4,RegExp.$5,RegExp.$6,RegExp.$7,RegExp.$8,RegExp.$9,RegExp.$_,RegExp.input);", jsStr([]rune(s))), "(OTest " + Cstr(s) + ")"}
@@ -1060,7 +1181,7 @@ func (g *gen) badCase() {
 
 func runC10(env *Env) {
 	env.Import = "Otto.C10.Corr"
-	env.Rule = "pattern trees of the portable subset (literals, escapes \\xHH \\uHHHH \\cX, classes, \\d\\w\\s\\b, groups, alternation, greedy/lazy quantifiers, anchors, g/i/m) printed in ES5 syntax as literal or constructor argument; subjects over {a,b,A,1,-,e-acute,\\n,...} sampled from the tree or random; histories of 1-6 calls (exec, test, lastIndex assignment at unit/byte boundaries, match, search, split with limit, replace with $-text or a logging function whose result contains $-patterns, replace with a string pattern) over a growing set of RegExp objects (new RegExp(r), new RegExp(r, undefined), RegExp(r.source, flags) made from objects in any state, identity of RegExp(r), own properties and lastIndex of the copy, the constructing literal / constructor call evaluated again in a function, a per-call closure, a loop body, eval, a compiled Script run again, and under new RegExp(...), each time observing distinctness from every earlier object, lastIndex 0, own properties and absence of expando properties; switching between all objects made so far); token soup and trees with look-ahead/back-references through parser.TransformRegExp; malformed mutations and flags through the constructor. non-trivial = history longer than one call or pattern with a quantifier, group, class, alternation or escape; every translation/constructor case"
+	env.Rule = "pattern trees of the portable subset (literals, escapes \\xHH \\uHHHH \\cX, classes, \\d\\w\\s\\b, groups, alternation, greedy/lazy quantifiers, anchors, g/i/m) printed in ES5 syntax as literal or constructor argument; subjects over {a,b,A,1,-,e-acute,\\n,...} sampled from the tree or random; histories of 1-6 calls (exec, test, lastIndex assignments of every class (unit/byte boundaries, negative, -0, fractions, NaN, +-Infinity, 2^31, 2^32-1, 2^32, 2^32+k, 2^53, numeric and other strings, objects whose valueOf reports its call), match/search/split/replace with pattern arguments that are not RegExp objects (the tree's source as string, String object, toString object, array; numbers, null, undefined, arrays), match, search, split with limit, replace with $-text or a logging function whose result contains $-patterns, replace with a string pattern) over a growing set of RegExp objects (new RegExp(r), new RegExp(r, undefined), RegExp(r.source, flags) made from objects in any state, identity of RegExp(r), own properties and lastIndex of the copy, the constructing literal / constructor call evaluated again in a function, a per-call closure, a loop body, eval, a compiled Script run again, and under new RegExp(...), each time observing distinctness from every earlier object, lastIndex 0, own properties and absence of expando properties; switching between all objects made so far); token soup and trees with look-ahead/back-references through parser.TransformRegExp; malformed mutations and flags through the constructor. non-trivial = history longer than one call or pattern with a quantifier, group, class, alternation or escape; every translation/constructor case"
 	g := &gen{env: env, r: env.Rng}
 	g.pinned()
 	for env.Count() < env.N {
